@@ -3,7 +3,7 @@
 # with a VIOLATION line, on a scratch copy of /repo/src (never on /repo itself).  usage: tools/sensitivity.sh [budget_s] [ids...]
 cd "$(dirname "$0")/.." || exit 9
 BUDGET=${1:-45}; shift 2>/dev/null
-IDS=${*:-$(ls seeded)}
+IDS=${*:-$(for d in seeded/*; do grep -q "\"out_of_scope\": true" $d/meta.json || basename $d; done)}
 OUTJSON=evidence/selftest_sensitivity.json
 RES=""
 for id in $IDS; do
